@@ -208,6 +208,49 @@ def guard_temp_cases(rng, _n):
     return cases
 
 
+def invocation_context_cases(rng, _n):
+    """The same assertion in different syntactic surroundings: after other assertions in the same block, in expression position,
+    as a match arm, next to caller locals named like the expansion's helpers, with another invocation inside a closure pattern.
+    The surroundings must not change verdict or report."""
+    import tgen
+    cases = []
+    k = 0
+    decl = "#[derive(Debug)] pub struct P { pub a: i32, pub s: String, pub o: Option<i32> }"
+    adt = lambda ctor, names, vals: "(adt %s (names %s) (vals %s))" % (tgen.hexs(ctor), " ".join(tgen.hexs(n) for n in names), " ".join(vals))
+    contexts = [
+        ("plain", "", ""),
+        ("after-other-assertions", "assert_struct!(&(1, 2), (1, _)); assert_struct!(&Some(3), Some(> 2)); assert_struct!(&vec![1, 2], #(2, 1)); ", ""),
+        ("expression-position", "let _unit: () = ", ""),
+        ("match-arm", "match 0u8 { _ => ", " }"),
+        ("tuple-of-two", "let _t = (assert_struct!(&1, 1), ", ")"),
+        ("caller-locals-named-like-helpers", "let __report = 5i32; let __assert_struct_value = 7i32; let __assert_struct_result = 9i32; ", "; let _z: i32 = __report + __assert_struct_value + __assert_struct_result"),
+        ("inside-a-loop", "for _i in 0..2 { ", " }"),
+        ("inside-a-nested-closure", "(|| { ", " })()"),
+        ("in-an-if-condition-block", "if { ", "; true } { }"),
+    ]
+    pats = ['P { a: 5, s: "abc", o: Some(3) }', 'P { a: > 4, s: =~ "a.c", .. }', 'P { a: |x| { assert_struct!(*x, > 0); true }, .. }', '_ { o: Some(1..=5), s.len(): 3, .. }']
+    vals = [(5, "abc", 3), (4, "abd", 9)]
+    meanings = "(meanings (v %s (int 5)) (v %s (str %s)) (v %s (int 3)) (v %s (int 4)) (p %s (cmp eq (str %s))) (r %s (int 1) (int 5) true) (p %s (cmp gt (int 0))))" % (
+        tgen.hexs("5"), tgen.hexs('"abc"'), tgen.hexs("abc"), tgen.hexs("3"), tgen.hexs("4"), tgen.hexs("a.c"), tgen.hexs("abc"), tgen.hexs("1..=5"),
+        tgen.hexs(tgen.squash("|x| { assert_struct!(*x, > 0); true }")))
+    for (a, s_, o) in vals:
+        val = 'P { a: %d, s: "%s".to_string(), o: Some(%d) }' % (a, s_, o)
+        sx = adt("P", ["a", "s", "o"], ["(int %d)" % a, "(str %s)" % tgen.hexs(s_), adt("Some", [], ["(int %d)" % o])])
+        for pt in pats:
+            for (name, wo, wc) in contexts:
+                c = t3.Case()
+                c.id = k
+                k += 1
+                c.forms = {"invocation-context": 1}
+                c.perturbed = a != 5
+                c.meanings = meanings
+                t3.finish_case(c, decl, "P", val, sx, pt)
+                c.wrap_open, c.wrap_close = wo, wc
+                c.context = name
+                cases.append(c)
+    return cases
+
+
 def eq_literal_text_cases(rng, _n):
     """`==` / `!=` with expected expressions whose printed text contains blanks and `::` inside string
     literals: the label must show the expression as written."""
@@ -342,6 +385,7 @@ def check(ck, aspect, theorems, t2_parts=("body", "status", "validity")):
                                 ("map-wildcard-value", map_wild_cases, "map entries whose value pattern is `_`: the key is still required"),
                                 ("wildcard-struct-sibling", wildcard_shadow_cases, "a wildcard struct next to a sibling field of the same name"),
                                 ("guard-temporaries", guard_temp_cases, "field paths through guard-returning methods: each assertion releases its borrow before the next"),
+                                ("invocation-context", invocation_context_cases, "the same assertion after other assertions, in expression position, as a match arm, in loops / closures, next to caller locals named like helpers"),
                                 ("eq-literal-text", eq_literal_text_cases, "expected expressions with blanks and `::` inside string literals"),
                                 ("range-boundary", range_boundary_cases, "integer and float ranges against values at and next to every bound"),
                                 ("c10-macro", set_palette_cases, "set patterns from a palette of element patterns over every listed order of small collections")):
